@@ -301,6 +301,7 @@ class C08(TreeSpec):
 @register
 class C05(TreeSpec):
     id = "C05"
+    engine_every = 5  # every allocate reached through Rebalance & co. inside real Backtest runs is judged too
     judged = ("C05",)
     own_checks = ("c05_sizing_exception", "c05_refuse", "c05_refuse_state", "c05_zero_amount", "c05_close", "c05_integral", "c05_overspend", "c05_underfill", "c05_cash", "c05_probe_booked", "c05_position")
     rule = TreeSpec.rule + "; every SecurityBase.allocate call of the run (direct, via rebalance/close/flatten/spread) is judged against the budget rule; non-trivial additionally needs >= 1 judged allocate"
